@@ -1,3 +1,3 @@
 From Gatery Require Import Bits ConjDefs.
 Require Extraction. Require Import ExtrOcamlBasic.
-Extraction "c14_model.ml" parse isEqualTo isNegationOf isSubsetOf cannotBothBeTrue build intersectTermsWith removeTerms removeTerms_pre wf.
+Extraction "c14_model.ml" parse conj_same isEqualTo isNegationOf isSubsetOf cannotBothBeTrue build intersectTermsWith removeTerms removeTerms_pre wf.
